@@ -36,7 +36,7 @@ RULE = ("corpus, then the definition-time table COMPLETELY (api incl. attrs.froz
         "preset or unset. Multiple inheritance: any non-root class may get a second direct base, a fresh plain mixin with empty "
         "__slots__ or with a __dict__, before or after the chain parent (systematic block: hooked/unhooked base x hook-less/"
         "hooked subclass x slots x mixin kind x order x {leaf, one level up, below a plain class} x redefinition incl. a redefined "
-        "setters.frozen field; random chains: 25% of classes). Hooks returning None are among the hook identities. Hook expressions are TREES: an on_setattr value is a bare callable or a "
+        "setters.frozen field; random chains: 25% of classes). Hooks returning None and callable-but-falsy hook objects (bare, in lists, in nested pipes, at field and class level) are among the hook identities. Hook expressions are TREES: an on_setattr value is a bare callable or a "
         "list/tuple/setters.pipe(...) whose members are setters or again setters.pipe(...) objects, nested at every position "
         "(first / middle / last, followed or not by further hooks) to depth <=4, with empty pipes, the same hook object and the "
         "same pipe object repeated, built-in setters and setters.frozen inside nested pipes (17 fixed shapes in the systematic "
@@ -44,7 +44,8 @@ RULE = ("corpus, then the definition-time table COMPLETELY (api incl. attrs.froz
         "wraps its input into its own term) and the trace logs every call with the intermediate value it received. Non-trivial = a definition error, or some step makes callbacks or "
         "raises; distinct = distinct case")
 ASSUMPTIONS = [
-    "the model works on the depth-first left-to-right flattening of each hook expression; that calling nested pipe objects equals running the flattening is proved (C06_tree_runs_flat) and diff-tested; NO_OP or other non-callables INSIDE a list/pipe (a TypeError at assignment time) and falsy callable hook objects are not generated",
+    "the model works on the depth-first left-to-right flattening of each hook expression; that calling nested pipe objects equals running the flattening is proved (C06_tree_runs_flat) and diff-tested; NO_OP or other non-callables INSIDE a list/pipe (a TypeError at assignment time) are not generated",
+    "hook identities 700..899 are callable hook OBJECTS that are falsy (__bool__ False / __len__ 0), used bare at field and class level and inside lists and nested pipes; the model does not know truthiness (C06_selection_ignores_truthiness): post-fix state of K06a (fixes/C06) -- a tree whose add_setattr still tests truthiness is reported as a violation",
     "decorator-object reuse is harness-only variation: the model is a function of the class specification alone, so any dependence of a class on what its decorator object was applied to before shows up as a disagreement / violation",
     "init=False fields: `ctor` (value real construction stores for f=v) is only observed and demanded for init=True fields; default values only accompany init=False",
     "user hooks, converters and validators are instrumented closures returning symbolic strings; user callbacks raise only when the fault position says so",
@@ -63,7 +64,8 @@ LEVEL_TEXT = (
     "attrs.wrap, _ClassBuilder.__init__ (normalisation), add_setattr (sa_attrs, generated __setattr__), _make_init_script's "
     "frozen checks, _patch_original_class/_create_slots_class (reset of an inherited attrs __setattr__) and setters.pipe/frozen/"
     "validate/convert, for ARBITRARY pipes, field lists, class chains, histories and fault positions: C06_stores_chain(_user,"
-    "_assign) (operational pipe = left-to-right fold, callbacks = declarative run); C06_tree_runs_flat, C06_flatten_order, C06_flatten_flat, C06_stores_tree (hook expressions "
+    "_assign) (operational pipe = left-to-right fold, callbacks = declarative run); C06_selection_ignores_truthiness, C06_field_hook_if_given (hook selection is a function of None / NO_OP / anything "
+    "else: invariant under replacing hook objects, e.g. truthy by falsy ones); C06_tree_runs_flat, C06_flatten_order, C06_flatten_flat, C06_stores_tree (hook expressions "
     "as trees of nested setters.pipe: nested evaluation = the flat left-to-right pipe of the leaves, under faults too); "
     "C06_failure_atomic_pipe/_frozen/_step and "
     "C06_failure_atomic (fault at any position: exactly the prefix of callbacks ran, its exception propagates, instance state "
@@ -88,6 +90,7 @@ FAULT_KINDS = ["user", "keyError", "lookupError", "attributeError", "typeError",
                "baseException"]
 _KIND_CTR = [0]
 NONE_HOOK = 900           # hook identities >= 900 return None
+FALSY_BOOL, FALSY_LEN = 700, 800   # identities 700..799 / 800..899: callable hook OBJECTS that are falsy (__bool__ / __len__)
 CONV_KINDS = [None, "plain", "c00", "c10", "c01", "c11"]
 
 
@@ -151,7 +154,8 @@ def gen_tree(rng, h, d=0):
         if d < 3 and rng.random() < 0.35:
             ms.append(gen_tree(rng, h, d + 1))
         else:
-            ms.append(rng.choice([U(h), U(h + 1), U(h + 2), U(h), "convert", "validate", U(NONE_HOOK + h % 50)] +
+            ms.append(rng.choice([U(h), U(h + 1), U(h + 2), U(h), "convert", "validate", U(NONE_HOOK + h % 50),
+                                  U(FALSY_BOOL + h % 90), U(FALSY_LEN + h % 90)] +
                                  (["frozen"] if rng.random() < 0.1 else [])))
     return P(*ms)
 
@@ -162,7 +166,10 @@ def field_ons(h):
             chain("convert"), chain("convert", "validate"), chain("validate", "convert"), chain(U(h), "convert"),
             chain("convert", U(h)), chain(U(h), "frozen"), chain("frozen", U(h)), chain(U(h), "validate", U(h + 1)),
             chain("convert", "convert"), chain("validate", "validate", U(h)), chain(U(NONE_HOOK + h % 50)),
-            chain(U(NONE_HOOK + h % 50), "convert", U(h))] + nested_ons(h + 20)
+            chain(U(NONE_HOOK + h % 50), "convert", U(h)),
+            # falsy-but-callable hook objects: bare, in lists, in nested pipes
+            bare(U(FALSY_BOOL + h % 90)), bare(U(FALSY_LEN + h % 90)), chain(U(FALSY_LEN + h % 90)),
+            chain(U(FALSY_BOOL + h % 90), U(h)), chain(U(h), P(U(FALSY_LEN + h % 90), "convert"), U(h + 1))] + nested_ons(h + 20)
 
 
 def cls_ons(h):
@@ -170,7 +177,8 @@ def cls_ons(h):
             lst("convert", "validate"), lst("validate"), lst("convert"), lst(), lst(U(h), "frozen"), lst("validate", U(h)),
             lst("convert", U(h), "validate"), bare(U(NONE_HOOK + h % 50)), lst(P(U(h), "convert"), U(h + 1)),
             lst(U(h), P("convert", "validate"), U(h + 1)), lst(P(P("convert", "validate"), U(h)), U(h + 1)),
-            {"hook": {"h": P("validate")}}]
+            {"hook": {"h": P("validate")}}, bare(U(FALSY_BOOL + h % 90)), bare(U(FALSY_LEN + h % 90)),
+            lst(U(FALSY_LEN + h % 90), "convert"), lst(P(U(FALSY_BOOL + h % 90)), U(h))]
 
 
 def conv_json(kind):
@@ -246,6 +254,7 @@ def systematic_chains():
     base_kinds = [
         ("bare", dict(cls_on=bare(U(50)))), ("list", dict(cls_on=lst(U(50), "convert"))),
         ("define-default", dict(define=True)), ("field-hook", dict()), ("none", dict()), ("validate", dict(cls_on=bare("validate"))),
+        ("falsy-bare", dict(cls_on=bare(U(FALSY_LEN + 50)))),
     ]
     sub_kinds = [
         ("none", dict()), ("noop", dict(cls_on="noop")), ("bare", dict(cls_on=bare(U(60)))),
